@@ -2439,3 +2439,75 @@ Theorem C01_file_rel_path_exclusion_necessary :
   end.
 Proof. exact class_file_rel_path_exclusion_necessary. Qed.
 Print Assumptions C01_file_rel_path_exclusion_necessary.
+
+(* ---- "file:" R against a FILE base, R path-relative: the same arm entered from the scheme state ---- *)
+From RU Require Import Proofs.C01_EqFileBase2.
+
+(* the Standard's side alone: scheme state -> file state at the position behind "file:" -> path state on the base
+   path without its last segment *)
+Theorem C01_file_same_path_spec : forall shp sb input c t,
+  spec_scheme (spec_clean input) = Some (str_file, c :: t) ->
+  has_opaque_path sb = false -> list_eqb (su_scheme sb) str_file = true ->
+  is_sl c = false -> (c =? 63) = false -> (c =? 35) = false ->
+  starts_with_windows_drive_letter (c :: t) = false -> last_not_nwdl (path_segments sb) = true ->
+  spec_basic_url_parse shp input (Some sb)
+  = BDone (file_tail (fkeep sb (removelast (path_segments sb))) (spath_f (c :: t) (removelast (path_segments sb)) [])).
+Proof. exact spec_file_same_path. Qed.
+Print Assumptions C01_file_same_path_spec.
+
+(* the class in_class_file_same_path = in_class_file_rel_path for the text behind "file:" (any case).  agree_good + the
+   result pair is a full_base pair; no host hypothesis.  Beside C01_statement_all3 (class 1 of Known_C01). *)
+Theorem C01_eq_file_same_path : forall dbg hp hpo hd shp shs input b sb,
+  usv_list input -> related dbg shs b sb -> spec_base_ok sb = true -> in_class_file_same_path sb input = true ->
+  agree_good dbg shs (parse_url dbg hp hpo hd None (Some b) input) (spec_basic_url_parse shp input (Some sb))
+  /\ (forall su u, spec_basic_url_parse shp input (Some sb) = BDone su -> parse_url dbg hp hpo hd None (Some b) input = POk u ->
+        full_base dbg shs u su).
+Proof. exact class_file_same_path. Qed.
+Check C01_eq_file_same_path : forall dbg hp hpo hd shp shs input b sb,
+  usv_list input -> related dbg shs b sb -> spec_base_ok sb = true ->
+  (negb (has_opaque_path sb) && list_eqb (su_scheme sb) str_file && opt_is_some (su_host sb)
+   && negb (is_nil (path_segments sb)) && last_not_nwdl (path_segments sb))
+  && match spec_scheme (spec_clean input) with
+     | Some (sch, c :: t) =>
+         list_eqb sch str_file && negb (is_sl c) && negb (c =? 63) && negb (c =? 35)
+         && negb (starts_with_windows_drive_letter (c :: t))
+         && fpath_ok true (c :: t) (removelast (path_segments sb)) []
+         && strip_stable (fst (spath_f (c :: t) (removelast (path_segments sb)) []))
+     | _ => false
+     end = true ->
+  agree_good dbg shs (parse_url dbg hp hpo hd None (Some b) input) (spec_basic_url_parse shp input (Some sb))
+  /\ (forall su u, spec_basic_url_parse shp input (Some sb) = BDone su -> parse_url dbg hp hpo hd None (Some b) input = POk u ->
+        full_base dbg shs u su).
+Print Assumptions C01_eq_file_same_path.
+
+Theorem C01_statement_file_same_path_model : forall dbg idna input b sb,
+  usv_list input -> full_base dbg spec_host_serializer b sb -> in_class_file_same_path sb input = true ->
+  agree_good dbg spec_host_serializer
+    (parse_url dbg (host_parse idna) host_parse_opaque host_display None (Some b) input)
+    (spec_basic_url_parse (spec_host_parser idna) input (Some sb))
+  /\ (forall su u, spec_basic_url_parse (spec_host_parser idna) input (Some sb) = BDone su ->
+        parse_url dbg (host_parse idna) host_parse_opaque host_display None (Some b) input = POk u ->
+        full_base dbg spec_host_serializer u su).
+Proof. exact class_file_same_path_model. Qed.
+Print Assumptions C01_statement_file_same_path_model.
+
+(* non-vacuity: against the parse result of file://h/tmp/x the references file:y and fIle:a/../b?q#f are in the class
+   (and in class 1 of Known_C01); both sides give file://h/tmp/y and file://h/tmp/b?q#f *)
+Example C01_eq_file_same_path_nonvacuous :
+  let idna := id_idna in
+  let P base i := parse_url true (host_parse idna) host_parse_opaque host_display None base i in
+  let S sbase i := spec_basic_url_parse (spec_host_parser idna) i sbase in
+  let i1 := [102;105;108;101;58;121] in
+  let i2 := [102;73;108;101;58;97;47;46;46;47;98;63;113;35;102] in
+  match P None file_base_text, S None file_base_text with
+  | POk b, BDone sb =>
+      let ok i h := in_class_file_same_path sb i = true /\ known_c01 (Some b) i = 1
+                    /\ match P (Some b) i, S (Some sb) i with
+                       | POk u, BDone su => q_href u = h
+                                            /\ api_of_model true u = Some (spec_api_list spec_host_serializer su)
+                       | _, _ => False end in
+      ok i1 [102;105;108;101;58;47;47;104;47;116;109;112;47;121]
+      /\ ok i2 [102;105;108;101;58;47;47;104;47;116;109;112;47;98;63;113;35;102]
+  | _, _ => False
+  end.
+Proof. exact class_file_same_path_nonvacuous. Qed.
